@@ -583,7 +583,7 @@ func builtinDateSetUTCMonth(call FunctionCall) Value {
 }
 
 func builtinDateSetYear(call FunctionCall) Value {
-	obj, date, ecmaTime, value := builtinDateBeforeSet(call, 1, true)
+	obj, date, ecmaTime, value := builtinDateBeforeSetFrom(call, 1, true, true)
 	if ecmaTime == nil {
 		return NaNValue()
 	}
